@@ -732,7 +732,13 @@ func buildHandlers() map[string]handler {
 			ss := make([]string, 0, len(a))
 			for _, v := range a {
 				if s, ok := v.(Str); ok {
+					if s.atom != nil {
+						panic(unsupported(name + " on atom string"))
+					}
 					if !s.isConc() {
+						if fn.Blocks != nil {
+							return e.callReal(fn, a) // plain Go on top of the modelled internal/bytealg
+						}
 						panic(unsupported(name + " on symbolic string"))
 					}
 					ss = append(ss, s.conc)
